@@ -321,7 +321,10 @@ def step(S0, enc, f):
     U.take_undef_instr_exception()
     R = St.merge(und, U, R)
     ni = z3.And(z3.Not(und), passed, _b(enc.notimpl(f, S0))) if enc.notimpl else z3.BoolVal(False)
-    info = {'passed': passed, 'undefined': und, 'exception': z3.Or(any_exc, und), 'cond': cond, 'notimpl': ni}
+    info = {'passed': passed, 'undefined': und, 'exception': z3.Or(any_exc, und), 'cond': cond, 'notimpl': ni,
+            # the conditions the result is merged on (direct subterms of the state components): a harness may decide
+            # them per path and substitute the constants (vf/step.py specialise)
+            'facts': [passed, und, initb] + [z3.And(passed, e.cond) for e in excs]}
     return R, unp, info
 
 
